@@ -200,16 +200,20 @@ def check_absorption(mm, rep):
                     t = T.term(arg, T.Env())
                     returns_kept = F.local_of(arg) == keep_local
 
-                    def branches(x):
-                        if x[0] == "if":
-                            return branches(x[2]) + branches(x[3])
-                        if x[0] == "match":
-                            return [y for _, b in x[2] for y in branches(b)]
-                        return [x]
+                    inner_conds = []
 
-                    for br in branches(t):
+                    def branches(x, conds=()):
+                        if x[0] == "if":
+                            c = T.short(x[1])[:60]
+                            return branches(x[2], conds + (c,)) + branches(x[3], conds + ("not " + c,))
+                        if x[0] == "match":
+                            return [y for l, b in x[2] for y in branches(b, conds + ("match " + l,))]
+                        return [(x, conds)]
+
+                    for br, bc in branches(t):
                         if br[0] == "local" and br[1] == keep_local:
                             returns_kept = True
+                            inner_conds = list(bc)
                     # a constant constructor equal to the kept side (e.g. TE::Bytes when the kept side is Bytes)
                     if not returns_kept and t[0] == "path" and str(t[1]).startswith(TE + "::") and str(t[1]).split("::")[-1] in side_sets:
                         returns_kept = True
@@ -222,7 +226,7 @@ def check_absorption(mm, rep):
                         for X in sorted(side_sets):
                             inconsistent = K in conflict_diag
                             # conditions on the path (guards / ifs) are listed for the report
-                            conds = []
+                            conds = list(inner_conds)
                             if arm.guard:
                                 conds.append(T.short(T.term(arm.guard, T.Env()))[:60])
                             for anc, key in ps:
@@ -234,7 +238,7 @@ def check_absorption(mm, rep):
                             rep.oblige(
                                 not inconsistent,
                                 "R16.3",
-                                f"absorb:{X}x{K}",
+                                f"absorb:{X}x{K}[{' & '.join(conds) or 'always'}]",
                                 F.loc(node["span"]),
                                 f"merge({X}, {K}) returns the {X} unchanged and drops the {K} evidence (when {' and '.join(conds) or 'always'}), but {K} x {K} can conflict (arm at {conflict_diag[K].where() if K in conflict_diag else '-'}): merge(merge({X.lower()},k1),k2) keeps the {X} while merge({X.lower()},merge(k1,k2)) is a conflict — the outcome depends on grouping and therefore on set iteration order",
                                 sample={"rule": "R16.3", "arm": arm.label(), "keeps": X, "drops": K, "conditions": conds},
